@@ -172,8 +172,14 @@ pub mod non_blocking {
                         .danger_accept_invalid_certs(true);
                 }
                 for data in &self.0.ca_certs {
-                    let cert =
-                        reqwest::Certificate::from_pem(data).or_else(|_| reqwest::Certificate::from_der(data))?;
+                    // with the rustls backend from_pem() accepts any input without looking at it,
+                    // so a failed PEM parse cannot be used to detect DER: look for the PEM marker instead
+                    let is_pem = data.windows(11).any(|w| w == b"-----BEGIN ");
+                    let cert = if is_pem {
+                        reqwest::Certificate::from_pem(data)
+                    } else {
+                        reqwest::Certificate::from_der(data)
+                    }?;
                     builder = builder.add_root_certificate(cert);
                 }
             }
